@@ -209,6 +209,9 @@ def scripts(rng, vtag, all_metrics, order, n_noise):
     yield [], None
     yield [""] * (len(order) * 3), None
     yield ["?"] * 50, None
+    # a user (or a pipe) that keeps giving the same wrong answer for a long time, then answers properly
+    yield ["?"] * 1500 + [legal(q) for q in order], None
+    yield [legal(order[0])] + ["zz"] * 1200 + [legal(q) for q in order[1:]], None
 
 
 def shard(P, vtag, all_metrics, n_noise, seed):
